@@ -27,4 +27,4 @@ macro_rules! c13_task_cwd {
 c13_task_cwd!(c13_task_cwd_len2, 2, 6);
 c13_task_cwd!(c13_task_cwd_len3, 3, 7);
 c13_task_cwd!(c13_task_cwd_len4, 4, 8);
-include!("/verif/harness/ripd/tasks__logs_c17.rs");
+include!(env!("VERIF_SLICE_C17"));
